@@ -20,6 +20,18 @@
 (*                    under clientsMu (pinned code: before taking the lock,  *)
 (*                    so a client registered in between is wiped from the    *)
 (*                    table without being stopped)                           *)
+(*                                                                         *)
+(* A backend that stops answering (Stall) fills the in-flight queue of its  *)
+(* connection (cap(processingReqs)); the writer of that client then waits   *)
+(* at a hand-over with the next request in hand (upstream.go loopWrite):    *)
+(* the hand-over of a command, or - for a request that follows an ASK       *)
+(* redirection - the hand-over of the ASKING placeholder.  A connection     *)
+(* loss must wake the writer at either point, otherwise client.Start never  *)
+(* returns, the dead client is never removed from the table and the address *)
+(* never heals.                                                             *)
+(*   AskSelectsQuit - the hand-over of the ASKING placeholder also waits    *)
+(*                    for quit (FALSE: plain channel send, the writer stays *)
+(*                    blocked for ever when the connection is lost)         *)
 (***************************************************************************)
 EXTENDS Naturals, Sequences, FiniteSets, TLC
 
@@ -27,7 +39,10 @@ CONSTANTS Reqs,           \* request ids (naturals, issued in order)
           MaxGens,        \* bound on connect calls ever stored
           MaxClients,     \* bound on clients ever created
           MaxFaults,      \* bound on environment faults
-          FixCallEntry, FixRemoveOwn, FixResetSnapshot
+          MaxStalls,      \* bound on backend stalls (in-flight queue of a connection full)
+          MaxAsk,         \* bound on requests that follow an ASK redirection
+          FixCallEntry, FixRemoveOwn, FixResetSnapshot,
+          AskSelectsQuit
 
 NoClient == 0
 Pending == MaxClients + 1     \* result of a call that has not finished yet
@@ -50,9 +65,15 @@ VARIABLES
   rst,          \* resetAllClients in progress: "idle" | "snap"
   snap,         \* its snapshot of the table
   genDown,      \* genDown[g]: the connect attempt of call g was started while the backend was down
-  faults
+  faults,
+  full,         \* full[c]: the backend stalls and the in-flight queue of c's connection is full
+  hand,         \* hand[c]: request the writer of c holds while it waits at a hand-over (0 = none)
+  asking,       \* asking[r]: r follows an ASK redirection (the writer sends ASKING in front of it)
+  wedged,       \* wedged[c]: connection lost, but the writer never woke up: Start() never returns
+  stalls, asks
 
-vars == <<table, call, gens, callRes, alive, exited, created, up, rq, rqc, outcome, sawDown, next, rst, snap, genDown, faults>>
+pvars == <<full, hand, asking, wedged, stalls, asks>>      \* pipeline part
+vars == <<table, call, gens, callRes, alive, exited, created, up, rq, rqc, outcome, sawDown, next, rst, snap, genDown, faults, pvars>>
 
 Init ==
   /\ table = NoClient /\ call = 0 /\ gens = 0 /\ callRes = [g \in 1..MaxGens |-> Pending]
@@ -62,19 +83,33 @@ Init ==
   /\ outcome = [r \in Reqs |-> "none"]
   /\ sawDown = [r \in Reqs |-> FALSE]
   /\ next = 1 /\ rst = "idle" /\ snap = NoClient /\ genDown = [g \in 1..MaxGens |-> FALSE] /\ faults = 0
+  /\ full = [c \in Clients |-> FALSE] /\ hand = [c \in Clients |-> 0] /\ asking = [r \in Reqs |-> FALSE]
+  /\ wedged = [c \in Clients |-> FALSE] /\ stalls = 0 /\ asks = 0
 
 InFlight(r) == rq[r] \notin {"idle", "done"}
 \* every request in flight witnesses a fault
 Witness == [r \in Reqs |-> sawDown[r] \/ InFlight(r)]
 
-(* a client issues request r: MakeRequestToHost -> getClient: table lookup  *)
+\* the writer of c can leave when the connection is lost: it holds nothing, or waits at a hand-over that also waits for quit
+CanExit(c) == hand[c] = 0 \/ ~asking[hand[c]] \/ AskSelectsQuit
+\* c's connection is lost (or c is stopped) in this step
+Lose(cs) ==
+  /\ alive' = [c \in Clients |-> IF c \in cs THEN FALSE ELSE alive[c]]
+  /\ exited' = [c \in Clients |-> IF c \in cs /\ alive[c] THEN CanExit(c) ELSE exited[c]]
+  /\ wedged' = [c \in Clients |-> IF c \in cs /\ alive[c] THEN ~CanExit(c) ELSE wedged[c]]
+  /\ full' = [c \in Clients |-> IF c \in cs THEN FALSE ELSE full[c]]
+
+(* a client issues request r: MakeRequestToHost -> getClient: table lookup; the request may be one that   *)
+(* an ASK redirection sent here (handleRedirection sets req.asking)                                        *)
 Issue(r) ==
   /\ rq[r] = "idle" /\ r = next /\ next' = next + 1
   /\ rq' = [rq EXCEPT ![r] = "lookup"]
   \* a loss that the proxy is still processing (client exited, entry not yet removed) counts:
   \* the request may meet the dying client - a short, bounded window
   /\ sawDown' = [sawDown EXCEPT ![r] = ~up \/ \E c \in Clients : exited[c]]
-  /\ UNCHANGED <<table, call, gens, callRes, alive, exited, created, up, rqc, outcome, rst, snap, genDown, faults>>
+  /\ \/ UNCHANGED <<asking, asks>>
+     \/ asks < MaxAsk /\ asks' = asks + 1 /\ asking' = [asking EXCEPT ![r] = TRUE]
+  /\ UNCHANGED <<table, call, gens, callRes, alive, exited, created, up, rqc, outcome, rst, snap, genDown, faults, full, hand, wedged, stalls>>
 
 (* getClient (upstream.go:214-233): hit -> send; miss -> LoadOrStore the call *)
 Lookup(r) ==
@@ -87,7 +122,7 @@ Lookup(r) ==
                    /\ rq' = [rq EXCEPT ![r] = "dial"] /\ rqc' = [rqc EXCEPT ![r] = gens + 1]
               ELSE /\ rq' = [rq EXCEPT ![r] = "waitcall"] /\ rqc' = [rqc EXCEPT ![r] = call]
                    /\ UNCHANGED <<call, gens>>
-  /\ UNCHANGED <<table, callRes, alive, exited, created, up, outcome, sawDown, next, rst, snap, genDown, faults>>
+  /\ UNCHANGED <<table, callRes, alive, exited, created, up, outcome, sawDown, next, rst, snap, genDown, faults, pvars>>
 
 (* a caller that found an existing call entry waits for it and takes its result; the shared attempt may  *)
 (* have been started while the backend was down (fail fast): that request witnesses the outage too       *)
@@ -97,14 +132,14 @@ WaitCall(r) ==
        THEN /\ outcome' = [outcome EXCEPT ![r] = "err"] /\ rq' = [rq EXCEPT ![r] = "done"] /\ UNCHANGED rqc
        ELSE /\ rqc' = [rqc EXCEPT ![r] = callRes[rqc[r]]] /\ rq' = [rq EXCEPT ![r] = "send"] /\ UNCHANGED outcome
   /\ sawDown' = [sawDown EXCEPT ![r] = @ \/ genDown[rqc[r]]]
-  /\ UNCHANGED <<table, call, gens, callRes, alive, exited, created, up, next, rst, snap, genDown, faults>>
+  /\ UNCHANGED <<table, call, gens, callRes, alive, exited, created, up, next, rst, snap, genDown, faults, pvars>>
 
 (* the caller that stored the call starts to connect: whether the backend is reachable is decided now,    *)
 (* the attempt finishes later (DialEnd)                                                                    *)
 DialStart(r) ==
   /\ rq[r] = "dial" /\ rq' = [rq EXCEPT ![r] = "dialing"]
   /\ genDown' = [genDown EXCEPT ![rqc[r]] = ~up]
-  /\ UNCHANGED <<table, call, gens, callRes, alive, exited, created, up, rqc, outcome, sawDown, next, rst, snap, faults>>
+  /\ UNCHANGED <<table, call, gens, callRes, alive, exited, created, up, rqc, outcome, sawDown, next, rst, snap, faults, pvars>>
 
 (* createClient (upstream.go:235-270) by the caller that stored the call    *)
 Dial(r) ==
@@ -125,39 +160,72 @@ Dial(r) ==
                    /\ outcome' = [outcome EXCEPT ![r] = "err"] /\ rq' = [rq EXCEPT ![r] = "done"]
                    /\ UNCHANGED <<table, alive, exited, created, rqc>>
   /\ call' = IF FixCallEntry THEN 0 ELSE call
-  /\ UNCHANGED <<gens, up, sawDown, next, rst, snap, genDown, faults>>
+  /\ UNCHANGED <<gens, up, sawDown, next, rst, snap, genDown, faults, pvars>>
 
 (* client.Send + the round trip: served if the client is alive, answered    *)
-(* with an error by Send / the drain if it has quit                         *)
+(* with an error by Send / the drain if it has quit.  While the backend     *)
+(* stalls with a full in-flight queue nothing is answered.                  *)
 SendAndReply(r) ==
-  /\ rq[r] = "send"
+  /\ rq[r] = "send" /\ ~(alive[rqc[r]] /\ full[rqc[r]])
   /\ outcome' = [outcome EXCEPT ![r] = IF alive[rqc[r]] THEN "ok" ELSE "err"]
   /\ rq' = [rq EXCEPT ![r] = "done"]
-  /\ UNCHANGED <<table, call, gens, callRes, alive, exited, created, up, rqc, sawDown, next, rst, snap, genDown, faults>>
+  /\ UNCHANGED <<table, call, gens, callRes, alive, exited, created, up, rqc, sawDown, next, rst, snap, genDown, faults, pvars>>
+
+(* loopWrite takes the next request of a stalled connection and waits at the hand-over to the in-flight    *)
+(* queue: with the command written (hand-off of the command), or - for an asking request - with ASKING     *)
+(* encoded (hand-off of the ASKING placeholder)                                                            *)
+WriterTake(r) ==
+  /\ rq[r] = "send" /\ alive[rqc[r]] /\ full[rqc[r]] /\ hand[rqc[r]] = 0
+  /\ hand' = [hand EXCEPT ![rqc[r]] = r] /\ rq' = [rq EXCEPT ![r] = "inhand"]
+  /\ UNCHANGED <<table, call, gens, callRes, alive, exited, created, up, rqc, outcome, sawDown, next, rst, snap, genDown, faults, full, asking, wedged, stalls, asks>>
+
+(* the backend answers again: the hand-over completes *)
+HandOver(r) ==
+  /\ rq[r] = "inhand" /\ alive[rqc[r]] /\ ~full[rqc[r]]
+  /\ hand' = [hand EXCEPT ![rqc[r]] = 0] /\ rq' = [rq EXCEPT ![r] = "send"]
+  /\ UNCHANGED <<table, call, gens, callRes, alive, exited, created, up, rqc, outcome, sawDown, next, rst, snap, genDown, faults, full, asking, wedged, stalls, asks>>
+
+(* the connection was lost while the writer waited: quit wakes it, the request in hand is answered here *)
+HandQuit(r) ==
+  /\ rq[r] = "inhand" /\ ~alive[rqc[r]] /\ ~wedged[rqc[r]]
+  /\ hand' = [hand EXCEPT ![rqc[r]] = 0]
+  /\ outcome' = [outcome EXCEPT ![r] = "err"] /\ rq' = [rq EXCEPT ![r] = "done"]
+  /\ UNCHANGED <<table, call, gens, callRes, alive, exited, created, up, rqc, sawDown, next, rst, snap, genDown, faults, full, asking, wedged, stalls, asks>>
+
+(* environment: the backend stops answering; the traffic of other sessions fills the in-flight queue of   *)
+(* the connection.  Taken while no modelled request is on its way, so that the next request is the one    *)
+(* the writer holds at the hand-over.                                                                      *)
+Stall(c) ==
+  /\ alive[c] /\ table = c /\ ~full[c] /\ stalls < MaxStalls /\ rst = "idle"
+  /\ \A r \in Reqs : ~InFlight(r)
+  /\ stalls' = stalls + 1 /\ full' = [full EXCEPT ![c] = TRUE]
+  /\ UNCHANGED <<table, call, gens, callRes, alive, exited, created, up, rq, rqc, outcome, sawDown, next, rst, snap, genDown, faults, hand, asking, wedged, asks>>
+Unstall(c) ==
+  /\ alive[c] /\ full[c] /\ full' = [full EXCEPT ![c] = FALSE]
+  /\ UNCHANGED <<table, call, gens, callRes, alive, exited, created, up, rq, rqc, outcome, sawDown, next, rst, snap, genDown, faults, hand, asking, wedged, stalls, asks>>
 
 (* environment: the connection of client c is lost (reset, backend restart) *)
 ConnLost(c) ==
   /\ alive[c] /\ faults < MaxFaults /\ faults' = faults + 1
-  /\ alive' = [alive EXCEPT ![c] = FALSE] /\ exited' = [exited EXCEPT ![c] = TRUE]
+  /\ Lose({c})
   /\ sawDown' = Witness
-  /\ UNCHANGED <<table, call, gens, callRes, created, up, rq, rqc, outcome, next, rst, snap, genDown>>
+  /\ UNCHANGED <<table, call, gens, callRes, created, up, rq, rqc, outcome, next, rst, snap, genDown, hand, asking, stalls, asks>>
 
 (* environment: the backend goes down (all its connections are lost) / comes back *)
 BackendDown ==
   /\ up /\ faults < MaxFaults /\ faults' = faults + 1 /\ up' = FALSE
-  /\ alive' = [c \in Clients |-> FALSE]
-  /\ exited' = [c \in Clients |-> exited[c] \/ alive[c]]
+  /\ Lose(Clients)
   /\ sawDown' = Witness
-  /\ UNCHANGED <<table, call, gens, callRes, created, rq, rqc, outcome, next, rst, snap, genDown>>
+  /\ UNCHANGED <<table, call, gens, callRes, created, rq, rqc, outcome, next, rst, snap, genDown, hand, asking, stalls, asks>>
 BackendUp ==
   /\ ~up /\ up' = TRUE
-  /\ UNCHANGED <<table, call, gens, callRes, alive, exited, created, rq, rqc, outcome, sawDown, next, rst, snap, genDown, faults>>
+  /\ UNCHANGED <<table, call, gens, callRes, alive, exited, created, rq, rqc, outcome, sawDown, next, rst, snap, genDown, faults, pvars>>
 
 (* the goroutine `c.Start(); u.removeClient(addr)` (upstream.go:263-268)     *)
 RemoveSelf(c) ==
   /\ exited[c] /\ exited' = [exited EXCEPT ![c] = FALSE]
   /\ table' = IF FixRemoveOwn /\ table # c THEN table ELSE NoClient
-  /\ UNCHANGED <<call, gens, callRes, alive, created, up, rq, rqc, outcome, sawDown, next, rst, snap, genDown, faults>>
+  /\ UNCHANGED <<call, gens, callRes, alive, created, up, rq, rqc, outcome, sawDown, next, rst, snap, genDown, faults, pvars>>
 
 (* OnHostReplace -> resetAllClients (upstream.go:290-302): snapshot of the    *)
 (* table, empty the table under the lock, then stop the clients of the      *)
@@ -166,20 +234,19 @@ ResetSnapshot ==
   /\ rst = "idle" /\ faults < MaxFaults /\ faults' = faults + 1
   /\ ~FixResetSnapshot
   /\ rst' = "snap" /\ snap' = table
-  /\ UNCHANGED <<table, call, gens, callRes, alive, exited, created, up, rq, rqc, outcome, sawDown, next, genDown>>
+  /\ UNCHANGED <<table, call, gens, callRes, alive, exited, created, up, rq, rqc, outcome, sawDown, next, genDown, pvars>>
 
 ResetSwap ==
   /\ \/ rst = "snap" /\ UNCHANGED faults
      \/ rst = "idle" /\ FixResetSnapshot /\ faults < MaxFaults /\ faults' = faults + 1
-  /\ LET old == IF rst = "snap" THEN snap ELSE table IN
-       /\ alive' = [c \in Clients |-> IF c = old THEN FALSE ELSE alive[c]]
-       /\ exited' = [c \in Clients |-> IF c = old /\ alive[c] THEN TRUE ELSE exited[c]]
+  /\ LET old == IF rst = "snap" THEN snap ELSE table IN Lose({old} \cap Clients)
   /\ table' = NoClient /\ rst' = "idle" /\ snap' = NoClient
   /\ sawDown' = Witness
-  /\ UNCHANGED <<call, gens, callRes, created, up, rq, rqc, outcome, next, genDown>>
+  /\ UNCHANGED <<call, gens, callRes, created, up, rq, rqc, outcome, next, genDown, hand, asking, stalls, asks>>
 
-ProxyNext == (\E r \in Reqs : Lookup(r) \/ WaitCall(r) \/ DialStart(r) \/ Dial(r) \/ SendAndReply(r)) \/ (\E c \in Clients : RemoveSelf(c))
-EnvNext == (\E r \in Reqs : Issue(r)) \/ (\E c \in Clients : ConnLost(c)) \/ BackendDown \/ BackendUp \/ ResetSnapshot
+ProxyNext == (\E r \in Reqs : Lookup(r) \/ WaitCall(r) \/ DialStart(r) \/ Dial(r) \/ SendAndReply(r) \/ WriterTake(r) \/ HandOver(r) \/ HandQuit(r))
+               \/ (\E c \in Clients : RemoveSelf(c))
+EnvNext == (\E r \in Reqs : Issue(r)) \/ (\E c \in Clients : ConnLost(c) \/ Stall(c) \/ Unstall(c)) \/ BackendDown \/ BackendUp \/ ResetSnapshot
 ResetNext == ResetSwap
 Next == ProxyNext \/ EnvNext \/ ResetNext
 Spec == Init /\ [][Next]_vars /\ WF_vars(ProxyNext) /\ WF_vars(ResetNext)
@@ -196,4 +263,11 @@ NoDeadEntry == Quiet => (table # NoClient => alive[table])
 NoOrphanClient == Quiet => \A c \in Clients : alive[c] => table = c
 \* a finished connect call never pins a dead client or a stale dial error
 NoStaleCall == Quiet => (call # 0 => (callRes[call] \notin {Pending, NoClient} /\ alive[callRes[call]]))
+\* a lost connection always ends its client: no writer stays behind at a hand-over (the dead client would keep the address for ever)
+NoWedgedClient == \A c \in Clients : ~wedged[c]
+\* window: the connection is alive, its in-flight queue is full and the writer waits with a request in hand (must be reachable)
+W_HandoverCmd == \E c \in Clients : alive[c] /\ hand[c] # 0 /\ ~asking[hand[c]]
+W_HandoverAsk == \E c \in Clients : alive[c] /\ hand[c] # 0 /\ asking[hand[c]]
+NoHandoverCmd == ~W_HandoverCmd
+NoHandoverAsk == ~W_HandoverAsk
 =============================================================================
